@@ -27,14 +27,16 @@ pub fn consts(module: &naga::Module) -> Vec<TokenStream> {
                 },
                 // Zero value constructors like `f32()` are not folded to literals by naga.
                 naga::Expression::ZeroValue(ty) => match &module.types[*ty].inner {
-                    naga::TypeInner::Scalar(scalar) => {
-                        let ty = rust_type(module, &module.types[*ty], MatrixVectorTypes::Rust);
-                        match scalar.kind {
-                            naga::ScalarKind::Bool => Some(quote!(#ty = false)),
-                            naga::ScalarKind::Float => Some(quote!(#ty = 0.0)),
-                            _ => Some(quote!(#ty = 0)),
-                        }
-                    }
+                    naga::TypeInner::Scalar(scalar) => match (scalar.kind, scalar.width) {
+                        (naga::ScalarKind::Bool, _) => Some(quote!(bool = false)),
+                        (naga::ScalarKind::Float, 4) => Some(quote!(f32 = 0.0)),
+                        (naga::ScalarKind::Float, 8) => Some(quote!(f64 = 0.0)),
+                        (naga::ScalarKind::Sint, 4) => Some(quote!(i32 = 0)),
+                        (naga::ScalarKind::Sint, 8) => Some(quote!(i64 = 0)),
+                        (naga::ScalarKind::Uint, 4) => Some(quote!(u32 = 0)),
+                        (naga::ScalarKind::Uint, 8) => Some(quote!(u64 = 0)),
+                        _ => None,
+                    },
                     _ => None,
                 },
                 _ => None,
